@@ -616,7 +616,7 @@ struct Runner
         sink.cb = nullptr;
         eigs.reset();
         Line l("End");
-        l.i("ov", g_heap_overruns_ptr ? (ll) *g_heap_overruns_ptr : 0);
+        l.i("ov", g_heap_overruns_ptr ? (ll) *g_heap_overruns_ptr - g_heap_ov0 : 0);
         out().put(l);
     }
 };
